@@ -42,7 +42,7 @@ def parseRole : String → Option (Role × Bool)
 
 def parseOutcome : String → Option Outcome
   | "ok" => some .ok | "fail" => some .fail | "failhold" => some .fail | "failmsg" => some .failmsg
-  | "gtorun" => some .gtorun
+  | "gtorun" => some .gtorun | "gtorunforeign" => some .gtorun | "gtoforeign" => some .gto
   | "cancelrun" => some .cancelrun | "silent" => some .silent | "gto" => some .gto | "cancel" => some .cancel
   | "precancel" => some .precancel
   | "badstart" => some .badstart | "stranger" => some .stranger | "readyerr" => some .readyerr
@@ -205,6 +205,44 @@ def handle (op : String) (args : List String) (impl : String) : Option Verdict :
       | some [("admitted", a), ("refused", r)] => a == 1 && r + 1 == n
       | _ => false
     return ⟨m, ok, s!"stress:n={min n 4}"⟩
+  | "excl", [_] => some <| Id.run do
+    -- every registry operation waits for the holder of the registry's lock (what makes one critical section one step
+    -- of the interleaving semantics): 1 = excluded
+    let m := "sub=1,unsub=1,get=1,stream=1,release=1,enter=1"
+    let ok := match parseKV impl with
+      | some kv => kv.length == 6 && kv.all (·.2 == 1)
+      | none => false
+    return ⟨m, ok, "excl"⟩
+  | "latesend", [_] => some <| Id.run do
+    -- a late send against a release in progress: add 1; release ‖ add 2 - by `no_stream_lost` nothing is lost in either
+    -- order, and one more release closes whatever was registered
+    let r := SMgr.run [.add 1, .release, .add 2]
+    let lost := (r.opened.filter fun i => !(r.reg.contains i || r.closed.contains i)).length
+    let r2 := r.step .release
+    let stillOpen := (r2.opened.filter fun i => !r2.closed.contains i).length
+    let m := s!"lost={lost},open={stillOpen}"
+    let ok := match parseKV impl with
+      | some [("lost", l), ("open", o)] => l == 0 && o == 0
+      | _ => false
+    return ⟨m, ok, "latesend"⟩
+  | "twosends", [n] => some <| Id.run do
+    -- n simultaneous sends of one session to one peer: one registers its stream, the others close theirs; release
+    let some n := n.toNat? | return bad
+    if n = 0 then return bad
+    let r := SMgr.run ([SEv.add 0] ++ (List.range (n - 1)).map (fun i => SEv.dup (i + 1)))
+    let r2 := r.step .release
+    let m := s!"reg={r.reg.length},open={(r2.opened.filter fun i => !r2.closed.contains i).length}"
+    let ok := match parseKV impl with
+      | some [("reg", rg), ("open", o)] => rg == 1 && o == 0
+      | _ => false
+    return ⟨m, ok, s!"twosends:n={min n 3}"⟩
+  | "hammer", [n] => some <| Id.run do
+    let some _ := n.toNat? | return bad
+    let m := "live=0,streams=0,open=0"
+    let ok := match parseKV impl with
+      | some [("live", l), ("streams", st), ("open", o)] => l == 0 && st == 0 && o == 0
+      | _ => false
+    return ⟨m, ok, "hammer"⟩
   | "rerun", [_kind, n] => some <| Id.run do
     let some n := n.toNat? | return bad
     let r := rerun ⟨[], [], [], 0⟩ "a" n
